@@ -46,7 +46,7 @@ def main():
     if which in ('harmless', 'all'):
         hd = os.path.join(VERIF, 'mutants', 'harmless')
         for f in sorted(os.listdir(hd)):
-            if f.endswith('.patch'):
+            if f.endswith('.patch') and only in f:
                 props = open(os.path.join(hd, f[:-6] + '.props')).read().split()
                 jobs.append((f[:-6], os.path.join(hd, f), props, 0))
     if which in ('seeded', 'all'):
